@@ -205,6 +205,23 @@ theorem step_canonical {t t' : List Cell} (op : Op) (ht : Canonical t) (ho : op.
   cases op with
   | slice i j =>
     exact ofCells_canonical h (fun c hc => ht.2.2 c ((pySlice_sublist t i j).subset hc))
+  | sliceStep i j k =>
+    simp only [step, Triangle.getSliceStep] at h
+    split at h
+    · cases h
+    · refine ofCells_canonical h (fun c hc => ?_)
+      obtain ⟨idx, _, hget⟩ := List.mem_filterMap.mp hc
+      exact ht.2.2 c (List.mem_of_getElem? hget)
+  | removeStaticDetails =>
+    simp only [step, Triangle.removeStaticDetails, bind, Except.bind, pure, Except.pure] at h
+    split at h
+    · cases h; exact ht
+    · split at h
+      · cases h
+      · rename_i v hv
+        exact ofCells_canonical h (mapM_mk_ok (f := fun c => { c with md := { c.md with
+          details := c.md.details.filter (fun kv => !(commonEntries (·.details) (Triangle.metadata t)).keys.contains kv.1),
+          lossDetails := c.md.lossDetails.filter (fun kv => !(commonEntries (·.lossDetails) (Triangle.metadata t)).keys.contains kv.1) } }) hv)
   | add o =>
     refine ofCells_canonical h (fun c hc => ?_)
     rcases List.mem_append.mp hc with hc | hc
